@@ -147,6 +147,7 @@ def items(tier):
     batch = [(d, t) for d, t in graph_variants(2, tier)] + [(d, t) for d, t in graph_variants(1, tier)]
     for i in range(0, len(batch), 40):
         out.append({"kind": "e2e", "n": 2, "graphs": batch[i:i + 40], "targets": "first", "cached_root": True})
+    out.append({"kind": "include-sharing"})
     names = NAMES[:3]
     lists = ordered_lists(names)
     base3 = [{nm: list(c) for nm, c in zip(names, combo)} for combo in itertools.product(lists, repeat=3)]
@@ -297,6 +298,29 @@ def run_item(item, tier):
                             if not r.err_text.startswith("ERROR:") or not hit:
                                 viol("e2e:wrong-diagnostic", "reference %s but stderr is %r" % (sorted(want), r.err_text[:300]), art)
         res["sample"] = {"deps": item["graphs"][0][0], "target": "a", "flags": ["--check"]}
+    elif kind == "include-sharing":
+        # several COND files include() the same settings file and extend the list it defines IN PLACE before using it as `deps`:
+        # each file evaluates its own copy, so every graph below is acyclic, complete and duplicate-free
+        common = "BASE = []\nEXTRA = {'deps': [\":setup\"]}\n"
+        pkg = ('include("//common.cond")\nBASE += [":setup"]\nEXTRA["deps"].append(":fetch")\n'
+               'run_command(name="setup", run="true")\nrun_command(name="fetch", run="true")\n'
+               'run_command(name="main", run="true", deps=BASE)\nrun_command(name="other", run="true", deps=EXTRA["deps"])\n')
+        files = {"common.cond": common, "a/COND": pkg, "b/COND": pkg, "c/d/COND": pkg,
+                 "COND": 'group(name="top", deps=["//a:main", "//b:main", "//c/d:main", "//b:other", "//a:other"])\n'
+                         'group(name="rev", deps=["//c/d:other", "//b:main", "//a:main"])\n'}
+        art = {"kind": "include-sharing"}
+        for t in ("//:top", "//:rev", "//b:main", "//c/d:other"):
+            for flags in (["--check"], []):
+                res["evals"] += 1
+                root = driver.fresh_project(files, name="c14i")
+                vk = vkmod.VK(project_root=root)
+                r = driver.run_cli(["run", t] + flags, root, vk=vk, git=fakegit.NO_GIT, clock=driver.Clock())
+                res["sigs"].add(explore.sig(["include-sharing", t, flags]))
+                if r.exc is not None or "Traceback" in r.err_text:
+                    viol("include-sharing:internal-error", "cond run %s %s: %r %s" % (t, flags, r.exc, r.err_text[-300:]), art)
+                elif r.exit != 0:
+                    viol("include-sharing:valid-graph-rejected", "cond run %s %s exits %r: %s" % (t, flags, r.exit, r.err_text[:300]), art)
+        res["sample"] = {"check": "COND files sharing an include()d list they extend in place", "targets": ["//:top", "//:rev", "//b:main", "//c/d:other"]}
     elif kind == "macro":
         for c in item["cases"]:
             k, chain, gdeps, reuse = c["k"], c["chain"], c["gdeps"], c["reuse"]
@@ -455,10 +479,24 @@ def _mentions(kind, txt):
 
 def replay(artefact):
     k = artefact["kind"]
+    if k == "include-sharing":
+        r = run_item({"kind": "include-sharing"}, "quick")
+        return [(v["key"], v["what"]) for v in r["violations"]]
     if k == "macro":
         r = run_item({"kind": "macro", "cases": [artefact["case"]]}, "quick")
         return [(v["key"], v["what"]) for v in r["violations"]]
     deps = artefact["deps"]
+    if k == "closure" and artefact.get("pkgs") is not None:
+        # exactly the reported (graph, layout, target)
+        names = sorted(deps)
+        root = driver.fresh_project(render(deps, names, artefact["pkgs"]), name="c14")
+        t = artefact["target"]
+        want = ref_verdict(deps, set(names), t)
+        got, _ = impl_closure(root, "//%s:%s" % (artefact["pkgs"].get(t, ""), t))
+        if got in want:
+            return []
+        return [("closure:%s-instead-of-%s" % (got, "+".join(sorted(want))), "load_transitive_closure(%s) on %r (layout %r) -> %s, reference -> %s"
+                 % (t, deps, artefact["pkgs"], got, sorted(want)))]
     if k == "closure":
         item = {"kind": "closure", "graphs": [(deps, "replay")]}
     elif k == "e2e":
